@@ -1567,10 +1567,6 @@ def main() -> int:
     if len(aconf.target_list) > 0:
         ret = exitcodes.GOOD
 
-        # If JSON output is desired, each target's results will be reported in its own list entry.
-        if aconf.json:
-            print('[', end='')
-
         # Loop through each target in the list.  Entries can specify a port number to use, otherwise the value provided on the command line (--port=N) will be used by default (set to 22 if --port is not used).
         target_servers = []
         for _, target in enumerate(aconf.target_list):
@@ -1585,6 +1581,10 @@ def main() -> int:
                 sys.exit(exitcodes.UNKNOWN_ERROR)
 
             target_servers.append((host, port))
+
+        # If JSON output is desired, each target's results will be reported in its own list entry.  (The list is opened only once all entries were found valid, so that a rejected targets file does not leave a dangling '[' behind.)
+        if aconf.json:
+            print('[', end='')
 
         # A ranked list of return codes.  Those with higher indices will take precedence over lower ones.  For example, if three servers are scanned, yielding WARNING, GOOD, and UNKNOWN_ERROR, the overall result will be UNKNOWN_ERROR, since its index is the highest.  Errors have highest priority, followed by failures, then warnings.
         ranked_return_codes = [exitcodes.GOOD, exitcodes.WARNING, exitcodes.FAILURE, exitcodes.CONNECTION_ERROR, exitcodes.UNKNOWN_ERROR]
